@@ -3,7 +3,7 @@
 From Coq Require Extraction.
 From Coq Require Import ExtrOcamlBasic.
 From Coq Require Import List NArith ZArith.
-From YV Require Import Lib.Bytes Ids.Ranges Codec.Varint Codec.AnyCodec Codec.IdSetCodec Codec.UpdateV1 Codec.V2Cols Codec.UpdateV2 Codec.IdMapCodec Codec.WireV2 Codec.Messages Codec.Cells Crdt.Doc Crdt.Local Crdt.Snapshot Crdt.Sticky Crdt.GcBlocks Crdt.YataBlocks Crdt.Links Crdt.Blocks Crdt.Merge Crdt.Diff Crdt.ApplyDelete Crdt.Integrate Crdt.RichText Crdt.XmlWalk Crdt.WriteBlocks Crdt.Events Crdt.Undo OpSet.Awareness.
+From YV Require Import Lib.Bytes Ids.Ranges Codec.Varint Codec.AnyCodec Codec.IdSetCodec Codec.UpdateV1 Codec.V2Cols Codec.UpdateV2 Codec.IdMapCodec Codec.WireV2 Codec.IdMapV2 Codec.Messages Codec.Cells Crdt.Doc Crdt.Local Crdt.Snapshot Crdt.Sticky Crdt.GcBlocks Crdt.YataBlocks Crdt.Dispatch Crdt.Links Crdt.Blocks Crdt.Merge Crdt.Diff Crdt.ApplyDelete Crdt.Integrate Crdt.RichText Crdt.XmlWalk Crdt.WriteBlocks Crdt.Events Crdt.Undo OpSet.Awareness.
 Extraction Language OCaml.
 Extraction "model.ml"
   N.add N.mul N.sub N.div_eucl N.eqb N.ltb N.leb N.of_nat N.to_nat
@@ -22,12 +22,13 @@ Extraction "model.ml"
   ustate0 uact undo redo live_entries uvisible
   input_of into_any output_of read_back jwf
   lk_should_notify lk_next_registered lk_initial_registered
-  mrg_merge_updates mrg_wf mrg_wf_norm idm_decode_v1 idm_encode_v1 idm_resolve
+  mrg_merge_updates mrg_wf mrg_wf_norm idm_decode_v1 idm_encode_v1 idm_resolve im2_decode im2_encode
   adl_apply_delete_chk adl_wf_store adl_ds_ok
   wbf_encode_diff_v1 wbf_encode_update_v1 wbf_hypotheses wbf_txn_hypotheses
   snp_encode_state_from_snapshot_v1 snp_snapshot_sorted snp_hypotheses snp_extends_b snp_no_holes
   stk_check_all stk_get_offset stk_wf
   yib_integrate_off yib_expand yib_seq_ok yib_fresh
+  evd_deep_calls evd_changed_parent_types
   gcb_run gcb_gc_api gcb_cells_view gcb_total_ok gcb_clients_ok gcb_branches_view
   xw_build xw_observe xw_wfb xw_find xw_check_spec
   rt_apply_auto rt_render rt_spec_apply rt_op_ok rt_items_eqb_gc rt_wf relems_eqb
